@@ -11,7 +11,7 @@ from ..models import FakeSeries, FakeFrame, FakeChunked
 from ..runtime import run_paths, current
 from ..harness import Inputs, decide, jsonable
 from . import reductions as R, cumulative as CU, rolling as RO, rowselect as RS, common
-from . import c01, c03, c04, c07, c08, c09, c13, c15
+from . import c01, c03, c04, c07, c08, c09, c13, c15, c16
 from .common import MergedRT
 
 PROP = "C19"
@@ -20,7 +20,7 @@ PROP = "C19"
 def cases(tier, seed):
     out = []
     step = 40 if tier == "quick" else 4
-    for mod, tag in ((c01, "C01"), (c04, "C04"), (c08, "C08"), (c09, "C09"), (c15, "C15"), (c07, "C07"), (c13, "C13"), (c03, "C03")):
+    for mod, tag in ((c01, "C01"), (c04, "C04"), (c08, "C08"), (c09, "C09"), (c15, "C15"), (c07, "C07"), (c13, "C13"), (c03, "C03"), (c16, "C16")):
         cs = [c for c in mod.cases("quick", seed) if not c.get("inductive") and c.get("kind") not in ("tmax", "ema", "strategy")]
         for c in cs[::step if len(cs) > 60 else max(1, step // 8)]:
             out.append({"src": tag, "case": c, "name": f"no input writes / no aliasing:{tag}:{c['name']}"})
@@ -48,7 +48,7 @@ def _arrays(x, acc):
 def run_case(E, case):
     t0 = time.time()
     src, c = case["src"], case["case"]
-    mod = {"C01": c01, "C04": c04, "C08": c08, "C09": c09, "C15": c15, "C07": c07, "C13": c13, "C03": c03}[src]
+    mod = {"C01": c01, "C04": c04, "C08": c08, "C09": c09, "C15": c15, "C07": c07, "C13": c13, "C03": c03, "C16": c16}[src]
     # run the property's own harness and keep only what C19 is about
     r = mod.run_case(E, c)
     writes = [fo for fo in r.get("failed_obligations", []) if fo[0] == "input_write"]
@@ -57,6 +57,10 @@ def run_case(E, case):
            "failed_obligations": writes, "witnesses": {f"stores into fresh arrays only ({src} harness)": True}, "candidates": [], "encoded": r.get("encoded", [])}
     for cand in r.get("candidates", []):
         if any("aliases caller-owned storage" in str(l) for l in cand.get("labels", [])):
+            if src == "C16":
+                res["verdict"] = "sat"
+                res["candidates"].append(dict(cand, signature=f"{PROP}:alias:{src}:" + cand["signature"].split(":", 1)[1], case={"src": src, "case": cand["case"]}))
+                continue
             res["verdict"] = "sat"
             res["candidates"].append(dict(cand, signature=f"{PROP}:alias:{src}:" + cand["signature"].split(":", 1)[1], case={"src": src, "case": c}))
         if cand.get("kind") == "obligation" and any(str(l).startswith("input_write") for l in cand.get("labels", [])):
@@ -71,7 +75,7 @@ def replay(case, conc, cand=None):
     import numpy as np
     import groupby_lib.groupby.numba as rnb
     src, c = case["src"], case["case"]
-    mod = {"C01": c01, "C04": c04, "C08": c08, "C09": c09, "C15": c15, "C07": c07, "C13": c13, "C03": c03}[src]
+    mod = {"C01": c01, "C04": c04, "C08": c08, "C09": c09, "C15": c15, "C07": c07, "C13": c13, "C03": c03, "C16": c16}[src]
     names = [n for n in dir(rnb) if n.startswith(("group_", "cum", "rolling_", "find_", "_find_")) and callable(getattr(rnb, n))]
     problems = []
     saved = {}
@@ -98,7 +102,9 @@ def replay(case, conc, cand=None):
             saved[n] = getattr(rnb, n)
             setattr(rnb, n, wrap(n, saved[n]))
         try:
-            mod.replay(c, conc, cand)
+            r = mod.replay(c, conc, cand)
+            if src == "C16" and r and r[0] and "view of the caller" in str(r[1].get("problem", "")):
+                problems.append(r[1]["problem"])
         except Exception as e:      # noqa: BLE001
             problems.append(f"replay raised {type(e).__name__}: {e}")
     finally:
